@@ -4,7 +4,8 @@
 # scratch worktree, then applies it to /repo, runs our check, undoes it, and archives it under
 # /verif/seeded/<PROP>-<X>/ with what was run and what our check said.
 ID=$1; X=$2; TIER=${3:-quick}
-SRC=/tmp/mut/$ID/out/$X; WT=/tmp/mut/$ID/repo; DST=/verif/seeded/$ID-$X
+PROP=$(echo $ID | sed 's/r[0-9]*$//'); RND=$(echo $ID | sed "s/^$PROP//")
+SRC=/tmp/mut/$ID/out/$X; WT=/tmp/mut/$ID/repo; DST=/verif/seeded/$PROP-$RND$X
 export GOFLAGS=-mod=mod GOPROXY=off; unset GOTOOLCHAIN GOSUMDB
 [ -f $SRC/patch.diff ] || { echo "no patch at $SRC"; exit 2; }
 mkdir -p $DST; cp $SRC/patch.diff $SRC/meta.json $DST/ 2>/dev/null; cp $SRC/demo* $DST/ 2>/dev/null; cp -r $SRC/demo $DST/ 2>/dev/null
@@ -31,8 +32,8 @@ cd $WT && git checkout -q -- . && git clean -fdq
 echo "demo without patch exit=$r0 (want 0); build=$rb (want 0); demo with patch exit=$r1 (want !=0); existing tests=$rt (want 0)" | tee -a $log
 # our check against it
 git -C /repo apply $SRC/patch.diff || { echo "patch does not apply to /repo" | tee -a $log; exit 2; }
-cd /verif && ./check $ID --tier $TIER > $DST/check_$TIER.out 2>&1; rc=$?
-git -C /repo checkout -q -- . ; git -C /verif checkout -q -- evidence/$ID.json 2>/dev/null; git -C /repo status --short | grep -v '^??' | head -3
+cd /verif && ./check $PROP --tier $TIER > $DST/check_$TIER.out 2>&1; rc=$?
+git -C /repo checkout -q -- . ; git -C /verif checkout -q -- evidence/$PROP.json 2>/dev/null; git -C /repo status --short | grep -v '^??' | head -3
 tail -5 $DST/check_$TIER.out | cut -c1-400
 echo "our check ($TIER) exit=$rc" | tee -a $log
 python3 - <<PY
